@@ -546,7 +546,7 @@ pub fn cases(tier: Tier) -> Vec<Case> {
         partial: true,
     };
     for (i, t) in g.all().into_iter().enumerate() {
-        v.push(Case::Tree { t, layout: (i % 4) as u8 });
+        v.push(Case::Tree { t, layout: (i % 5) as u8 });
     }
     // K = 4: predicates with two rows (and with one row), partial
     let g4 = TreeGen {
@@ -580,7 +580,7 @@ pub fn run(tier: Tier) -> Report {
     rep.absorb(total);
     let nt = rep.coverage.get("objects_nontrivial").and_then(|v| v.as_u64()).unwrap_or(0);
     rep.set("distinct_nontrivial", nt);
-    rep.set("rule", "vectors over {0,-0.0,+-1,+-0.004,+-0.005,+-2.5,+-12345.678,1e-9}: every vector of length 1-2, every 3rd of length 3 (thorough: all), rotation patterns for lengths 4-6 and matrices up to 3x4, a 7-row and a 25-column object; each rendered as function and as polytope under every combination of sort threshold {0,1,n,n+1} x simplify_zero x simplify_tautologies x normalize x 4 axis-skip ranges x (4 row-skip ranges for matrices) x precision {default,0,4} plus the default option sets; trees: all generator trees (<= 5 nodes, three arena layouts) through Display and Dot; non-trivial = some non-zero coefficient; distinct by enumeration");
+    rep.set("rule", "vectors over {0,-0.0,+-1,+-0.004,+-0.005,+-2.5,+-12345.678,1e-9}: every vector of length 1-2, every 3rd of length 3 (thorough: all), rotation patterns for lengths 4-6 and matrices up to 3x4, a 7-row and a 25-column object; each rendered as function and as polytope under every combination of sort threshold {0,1,n,n+1} x simplify_zero x simplify_tautologies x normalize x 4 axis-skip ranges x (4 row-skip ranges for matrices) x precision {default,0,4} plus the default option sets; trees: all generator trees (<= 5 nodes, five storage layouts) through Display and Dot; non-trivial = some non-zero coefficient; distinct by enumeration");
     rep.set("bound", match tier { Tier::Quick => "see rule (quick selection)", Tier::Thorough => "see rule; all vectors of length 3, trees with <= 7 nodes" });
     rep.assume("a term is faithful if its text equals sign glyph + the stored value (divided by max|coeff| for normalised inequalities) formatted at the requested precision");
     rep
